@@ -23,6 +23,8 @@ let oracle_c02 (line : string) : string =
           bad := Some (Printf.sprintf "record %d: a cell changed that the drawing window does not own" k)
         else if not (c02_exact_checkb !app (progs_fn cs) t (zi nl) (zi nc) before after log) then
           bad := Some (Printf.sprintf "record %d: a cell does not show what its owner's program alone leaves there" k)
+        else if not (has_restack cs) && not (c02_within_pending_checkb (zi 0) (parse_rects (field r "P")) log) then
+          bad := Some (Printf.sprintf "record %d: the root was handed a rectangle that was not damage" k)
         else if not (c02_rects_checkb t log) then
           bad := Some (Printf.sprintf "record %d: a handler was handed a rectangle outside its window or overlapping another" k)
       end) recs;
